@@ -1,66 +1,28 @@
-import Props.Shards.C12_q8_to_posit_0
-import Props.Shards.C12_q8_to_posit_1
-import Props.Shards.C12_q8_to_posit_2
-import Props.Shards.C12_q8_to_posit_3
-import Props.Shards.C12_q8_to_posit_4
-import Props.Shards.C12_q8_to_posit_5
-import Props.Shards.C12_q8_to_posit_6
-import Props.Shards.C12_q8_to_posit_7
-import Props.Shards.C12_q8_to_posit_8
-import Props.Shards.C12_q8_to_posit_9
-import Props.Shards.C12_q8_to_posit_10
-import Props.Shards.C12_q8_to_posit_11
-import Props.Shards.C12_q8_to_posit_12
-import Props.Shards.C12_q8_to_posit_13
-import Props.Shards.C12_q8_to_posit_14
-import Props.Shards.C12_q8_to_posit_15
+import Props.C12Q8Shards
 import Props.C04Hist
-/-! # C04 + C12, Q8E0 end to end (partial: |sum| < 4096)
+/-! # C04 + C12, Q8E0 end to end (partial: |sum| < 32768)
 
-* `q8_to_posit_small`: for EVERY Q8E0 state whose value is below 4096 in magnitude (2^25 of the 2^32 states; P8E0's maxpos is 64, so
-  every state that does not saturate by a factor of 64 is inside), `to_posit` returns normally the single posit-rule rounding of the
-  state's exact value (NAT, 16 shards of 2^21 states).
-* `q8_history_rounds`: composed with `C04.q8_history` — after ANY finite sequence of `+=`/`-=` of products and single posits from the
-  cleared quire whose exact partial sums stay in the quire's range and whose final sum is below 4096 in magnitude, `to_posit` is
-  the exact sum rounded once.  This is the statement of C04 for Q8E0 at full strength except for the bound on the final sum (the
-  remaining states all round to ±maxpos; sweeping them costs 2^32 evaluations and is not in any tier — `_partial`). -/
+* `q8_to_posit_small`: for EVERY Q8E0 state whose value is below 32768 in magnitude (2^28 of the 2^32 states; P8E0's maxpos is 64,
+  so every state that does not saturate by a factor of 512 is inside), `to_posit` returns normally the single posit-rule rounding of
+  the state's exact value (NAT, 128 shards of 2^21 states).
+* `q8_history_rounds_partial`: composed with `C04.q8_history` — after ANY finite sequence of `+=`/`-=` of products and single posits
+  from the cleared quire whose exact partial sums stay in the quire's range and whose final sum is below 32768 in magnitude,
+  `to_posit` is the exact sum rounded once.  This is the statement of C04 for Q8E0 at full strength except for the bound on the
+  final sum (the remaining states all round to ±maxpos; sweeping them costs 2^32 evaluations and is not in any tier — `_partial`). -/
 open Gen Sweep SweepG
 namespace C12
 
-theorem q8_to_posit_shards_lo (k : Nat) (hk : k < 8) : allRangeTR (k * 2097152) 2097152 q8ToPositOk = true :=
-  match k, hk with
-  | 0, _ => q8_to_posit_shard0
-  | 1, _ => q8_to_posit_shard1
-  | 2, _ => q8_to_posit_shard2
-  | 3, _ => q8_to_posit_shard3
-  | 4, _ => q8_to_posit_shard4
-  | 5, _ => q8_to_posit_shard5
-  | 6, _ => q8_to_posit_shard6
-  | 7, _ => q8_to_posit_shard7
-  | n + 8, h => absurd h (by omega)
-theorem q8_to_posit_shards_hi (k : Nat) (hk : k < 8) : allRangeTR (4278190080 + k * 2097152) 2097152 q8ToPositOk = true :=
-  match k, hk with
-  | 0, _ => q8_to_posit_shard8
-  | 1, _ => q8_to_posit_shard9
-  | 2, _ => q8_to_posit_shard10
-  | 3, _ => q8_to_posit_shard11
-  | 4, _ => q8_to_posit_shard12
-  | 5, _ => q8_to_posit_shard13
-  | 6, _ => q8_to_posit_shard14
-  | 7, _ => q8_to_posit_shard15
-  | n + 8, h => absurd h (by omega)
-
-theorem q8_to_posit_ok_small (s : Nat) (h : s < 16777216 ∨ (4278190080 ≤ s ∧ s < 4294967296)) : q8ToPositOk s = true := by
+theorem q8_to_posit_ok_small (s : Nat) (h : s < 134217728 ∨ (4160749568 ≤ s ∧ s < 4294967296)) : q8ToPositOk s = true := by
   rcases h with h | ⟨h1, h2⟩
-  · have hk : s / 2097152 < 8 := by omega
+  · have hk : s / 2097152 < 64 := by omega
     exact allRangeTR_imp (q8_to_posit_shards_lo _ hk) s (by omega) (by omega)
-  · have hk : (s - 4278190080) / 2097152 < 8 := by omega
+  · have hk : (s - 4160749568) / 2097152 < 64 := by omega
     exact allRangeTR_imp (q8_to_posit_shards_hi _ hk) s (by omega) (by omega)
 
-/-- **`to_posit` on every Q8E0 state with |value| < 4096** -/
-theorem q8_to_posit_small (q : Int32) (h1 : -16777216 ≤ q.toInt) (h2 : q.toInt < 16777216) :
+/-- **`to_posit` on every Q8E0 state with |value| < 32768** -/
+theorem q8_to_posit_small (q : Int32) (h1 : -134217728 ≤ q.toInt) (h2 : q.toInt < 134217728) :
     crate.quire8.convert.Q8E0.to_posit q = .ok (p8 (Spec.round Spec.p8 (mkRat q.toInt 4096))) := by
-  have hs : q.toUInt32.toNat < 16777216 ∨ (4278190080 ≤ q.toUInt32.toNat ∧ q.toUInt32.toNat < 4294967296) := by
+  have hs : q.toUInt32.toNat < 134217728 ∨ (4160749568 ≤ q.toUInt32.toNat ∧ q.toUInt32.toNat < 4294967296) := by
     have := q.toUInt32.toNat_lt
     have e : q.toInt = (q.toUInt32.toNat : Int) ∨ q.toInt = (q.toUInt32.toNat : Int) - 4294967296 := by
       have hb := q.toBitVec.toInt_eq_toNat_bmod
@@ -94,9 +56,9 @@ theorem q8_to_posit_small (q : Int32) (h1 : -16777216 ≤ q.toInt) (h2 : q.toInt
     rw [← hok]; simp [p8, bits8]
   · cases hok
 
-/-- **C04 for Q8E0, end to end (partial: |final sum| < 4096)** -/
+/-- **C04 for Q8E0, end to end (partial: |final sum| < 32768)** -/
 theorem q8_history_rounds_partial (ops : List C04.Op8) (hreal : ∀ op ∈ ops, op.real) (hs : C04.sumsIn 0 ops)
-    (hb1 : -16777216 ≤ (ops.map C04.Op8.term).sum) (hb2 : (ops.map C04.Op8.term).sum < 16777216) :
+    (hb1 : -134217728 ≤ (ops.map C04.Op8.term).sum) (hb2 : (ops.map C04.Op8.term).sum < 134217728) :
     (do let q ← C04.run8 crate.quire8.Q8E0.ZERO ops; crate.quire8.convert.Q8E0.to_posit q) =
       .ok (p8 (Spec.round Spec.p8 (mkRat (ops.map C04.Op8.term).sum 4096))) := by
   obtain ⟨q', h, v⟩ := C04.q8_history_zero ops hreal hs
